@@ -88,7 +88,7 @@ def gen_cases(rng, tier):
     for n in [-20, -1, 0, 1, 19]:
         cases.append(_sim("nice-get" if n else "trivial", plain, ["nice", None], nice=n))
     # ---------------- ionice
-    for c in [None, -1, 0, 1, 2, 3, 4, 5, 2 ** 18 - 1, 2 ** 18, 2 ** 31]:
+    for c in [None, -1, 0, 1, 2, 3, 4, 2 ** 18, 2 ** 31] + ([5, 2 ** 18 - 1] if tier != "quick" else []):
         for v in [None, -1, 0, 1, 2, 3, 4, 5, 6, 7, 8, 100, 2 ** 40]:
             cls = "ionice-get" if c is None and v is None else "ionice-valid" if c in (0, 1, 2, 3) and v in (None, 0, 1, 2, 3, 4, 5, 6, 7) \
                 else "ionice-invalid"
@@ -108,12 +108,21 @@ def gen_cases(rng, tier):
         lists = [[elig[0], elig[0]], elig + elig[::-1], [elig[-1]], list(elig)]
         lists += [[c] for c in inel[:4]] + [inel[:3], [99], [-1], [-5], [1024], [1023], [2 ** 63 - 1], [-2 ** 63], [2 ** 70], [-1, 99],
                                             [99, 99], [ncpu], [ncpu - 1], [elig[0], 99], [elig[0], -1], [elig[0], inel[0]], [2 ** 70, elig[0]],
-                                            [2 ** 31], [2 ** 32], [2 ** 32 + 1], [2 ** 62], [2 ** 32 + elig[0]], [2 ** 32, elig[0]]]
+                                            [2 ** 31], [2 ** 32], [2 ** 32 + 1], [2 ** 62], [2 ** 32 + elig[0]], [2 ** 32, elig[0]],
+                                            [-1, elig[0]], [99, elig[0], elig[-1]], [elig[0], elig[-1], 99], [99, 98]]
         for l in lists:
             if not l:
                 continue
             k = "aff-valid-" if all(c in elig for c in l) else "aff-invalid-" if not any(c in elig for c in l) else "aff-mixed-"
             cases.append(_sim(k + name, sit, ["aff", l]))
+    # every shape x {empty, eligible with duplicates, invalid element first / last, only invalid}
+    for sh in SHAPES:
+        for l in ([], [3, 1, 1], [99, 2], [2, 99], [99], [-1, 2], [2, -1]):
+            if _shape_ok(sh, l):
+                k = "aff-shape-empty" if not l else "aff-shape-valid" if all(c in el for c in l) else "aff-shape-invalid" if not any(c in el for c in l) else "aff-shape-mixed"
+                c = _sim(k, SITUATIONS[2], ["aff", l])
+                c["shape"] = sh
+                cases.append(c)
     # ---------------- rlimit
     for res in range(16):
         for pair in RL_VALUES:
@@ -132,7 +141,7 @@ def gen_cases(rng, tier):
             for v in (-20, -10, -6, -5, -4, -1, 0, 4, 5, 6, 10, 19, -21, 25) if tier == "thorough" else (-20, -6, -5, -4, 0, 6, 19, -21):
                 cases.append(_sim("perm-nice-" + tag, plain, ["nice", v], nice=start, rlim=rl, caps=caps))
         for c in (0, 1, 2, 3):
-            for v in (None, 0, 4, 7, 8):
+            for v in (None, 0, 4, 7, 8) if tier != "quick" else (None, 4, 8):
                 cases.append(_sim("perm-ionice-" + tag, plain, ["ionice", c, v], ioprio=(2 << 13) | 1, caps=caps))
         for res, init, pairs in ((7, [1024, 4096], [[5, 4096], [5, 4097], [4096, 8192], [0, 1048576], [0, 1048577], [INF, INF], [5, 10]]),
                                  (4, [0, 100], [[0, 100], [100, 100], [0, 101], [INF, INF], [5, INF], [0, 0]]),
@@ -163,7 +172,7 @@ def gen_cases(rng, tier):
     # ---------------- handle histories: Process / Popen objects whose pid is gone, recycled or still the same process
     cases.extend(_hist_cases(rng, tier))
     # ---------------- random states / requests
-    n_rand = {"quick": 80, "thorough": 6000, "search": 400}[tier]
+    n_rand = {"quick": 60, "thorough": 6000, "search": 400}[tier]
     if tier == "thorough":
         el8 = list(range(2, 10))
         sit8 = ("plain8", el8, None, 12)
@@ -355,6 +364,12 @@ def _live_cases(rng, tier):
     for n in range(1, len(few) + 1):
         for sub in itertools.combinations(few, n):
             out.append(_live("live-aff-subset", elig, ncpu, ["aff", list(sub)], mask=rng.choice([None, elig[-1:]])))
+    for sh in SHAPES:
+        for l in ([], elig[:2] + elig[:1], [1024, elig[0]], [1024]):
+            if _shape_ok(sh, l):
+                c = _live("live-aff-shape", elig, ncpu, ["aff", list(l)], mask=elig[-1:])
+                c["shape"] = sh
+                out.append(c)
     states = [("fresh", None), ("single", elig[-1:])]
     if len(elig) >= 3:
         states.append(("narrowed", elig[:2]))
@@ -439,7 +454,106 @@ def mk_call(req, form):
     return meth, cm, pos, kw
 
 
+SHAPES = ["list", "generator", "tuple", "iter", "set", "map", "frozenset", "chain", "dict_keys", "lines", "range"]
+COQ_SHAPE = {"list": "SList", "tuple": "STuple", "set": "SSet", "frozenset": "SFrozenset", "range": "SRange", "dict_keys": "SDictKeys",
+             "iter": "SIter", "generator": "SGenerator", "map": "SMap", "chain": "SChain", "lines": "SLines"}
+LTYPES = ["tuple", "list", "generator", "iter"]
+VTYPES = ["int", "intenum", "bool", "intsub"]
+
+
+class _Lines:
+    """a file-like line iterator yielding ints (one-shot)"""
+
+    def __init__(self, items):
+        self._it = iter(list(items))
+
+    def __iter__(self):
+        return self
+
+    def __next__(self):
+        return next(self._it)
+
+    def readline(self):
+        return next(self._it, "")
+
+
+def mk_iterable(shape, items):
+    """a fresh object of that shape yielding [items] (sets: in their own order, duplicates merged)"""
+    import itertools
+    items = list(items)
+    if shape == "list":
+        return list(items)
+    if shape == "tuple":
+        return tuple(items)
+    if shape == "set":
+        return set(items)
+    if shape == "frozenset":
+        return frozenset(items)
+    if shape == "range":
+        return range(items[0], items[-1] + 1) if items else range(0)
+    if shape == "dict_keys":
+        return dict.fromkeys(items).keys()
+    if shape == "iter":
+        return iter(items)
+    if shape == "generator":
+        return (x for x in items)
+    if shape == "map":
+        return map(int, [str(x) for x in items])
+    if shape == "chain":
+        return itertools.chain(items[:1], items[1:])
+    if shape == "lines":
+        return _Lines(items)
+    raise ValueError(shape)
+
+
+def _shape_ok(shape, items):
+    if shape == "range":
+        return all(abs(x) < 2 ** 40 for x in items) and items == list(range(items[0], items[-1] + 1)) if items else True
+    return True
+
+
+def mk_value(vtype, v):
+    """the int v as an instance of a subclass of int"""
+    import enum
+    if vtype == "bool" and v in (0, 1):
+        return bool(v)
+    if vtype == "intenum" and isinstance(v, int):
+        return enum.IntEnum("E", {"A": v}).A
+    if vtype == "intsub" and isinstance(v, int):
+        return type("MyInt", (int,), {})(v)
+    return v
+
+
 def _assign_forms(cases):
+    _assign_shapes(cases)
+    return _assign_forms0(cases)
+
+
+def _assign_shapes(cases):
+    """the container shape is a dimension of every cpu_affinity set request, the sequence type of every rlimit limits
+    argument, the int type of every nice / ionice value: dealt round-robin per class"""
+    seen = {}
+    for c in cases:
+        req = c.get("req")
+        if not req:
+            continue
+        key = (c["kind"], c["cls"], req[0])
+        i = seen.get(key, 3 * len(seen))
+        seen[key] = i + 1
+        if req[0] == "aff" and req[1] is not None and "shape" not in c:
+            for j in range(len(SHAPES)):
+                sh = SHAPES[(i + j) % len(SHAPES)]
+                if _shape_ok(sh, req[1]):
+                    break
+            c["shape"] = sh
+        elif req[0] == "rlimit" and req[2] is not None and "ltype" not in c:
+            c["ltype"] = LTYPES[i % len(LTYPES)]
+        elif req[0] in ("nice", "ionice") and "vtype" not in c:
+            c["vtype"] = VTYPES[i % len(VTYPES)]
+    return cases
+
+
+def _assign_forms0(cases):
     """the call form is a dimension of every request: forms are dealt round-robin per (kind, class) so that each class meets all"""
     seen = {}
     for c in cases:
@@ -461,8 +575,16 @@ def _pyval(v):
 
 def _call_term(case):
     meth, cm, pos, kw = mk_call(case["req"], case.get("form", "pos"))
-    return "%s (Build_call %s %s)" % (cm, G.lst([_pyval(v) for v in pos]),
-                                      G.lst(['("%s"%%string, %s)' % (n, _pyval(v)) for n, v in kw]))
+    names = METHOD[case["req"][0]][2]
+
+    def pv(n, v):
+        if n == "cpus" and isinstance(v, list) and case.get("shape", "list") != "list":
+            return "(PIter %s %s)" % (COQ_SHAPE[case["shape"]], _zl(v))
+        if n == "limits" and isinstance(v, list) and case.get("ltype", "tuple") in ("generator", "iter"):
+            return "(PIter %s %s)" % (COQ_SHAPE[case["ltype"]], _zl(v))
+        return _pyval(v)
+    return "%s (Build_call %s %s)" % (cm, G.lst([pv(n, v) for n, v in zip(names, pos)]),
+                                      G.lst(['("%s"%%string, %s)' % (n, pv(n, v)) for n, v in kw]))
 
 
 # ------------------------------------------------------------------ Coq terms
@@ -609,11 +731,18 @@ def _out(fn, conv, pidmap=None):
     return Val(conv(r))
 
 
-def _call(p, req, form="pos"):
+def _call(p, req, form="pos", case=None):
     meth, _, pos, kw = mk_call(req, form)
+    case = case or {}
 
     def conv(name, v):
-        return tuple(v) if name == "limits" and isinstance(v, list) else v
+        if name == "cpus" and isinstance(v, list):
+            return mk_iterable(case.get("shape", "list"), v)
+        if name == "limits" and isinstance(v, list):
+            return mk_iterable(case.get("ltype", "tuple"), v)
+        if name in ("value", "ioclass") and isinstance(v, int):
+            return mk_value(case.get("vtype", "int"), v)
+        return v
     names = METHOD[req[0]][2]
     args = [conv(n, v) for n, v in zip(names, pos)]
     kwargs = {n: conv(n, v) for n, v in kw}
@@ -752,7 +881,7 @@ def _run_hist(case, coq, env):
         try:
             for m, n in saved:
                 setattr(m, n, counted(n) if n in ("setpriority", "proc_ioprio_set", "proc_cpu_affinity_set", "prlimit") else getattr(sk, n))
-            res = _out(_call(p, case["req"], case.get("form", "pos")), _conv, {pid: case["pid"]})
+            res = _out(_call(p, case["req"], case.get("form", "pos"), case), _conv, {pid: case["pid"]})
         finally:
             for m, n, f in orig:
                 setattr(m, n, f)
@@ -794,7 +923,7 @@ def _run_sim(case, coq, env):
         p = psutil.Process(case["pid"])
         elig = _out(p._proc._get_eligible_cpus, _conv)
         try:
-            res = _out(_call(p, case["req"], case.get("form", "pos")), _conv)
+            res = _out(_call(p, case["req"], case.get("form", "pos"), case), _conv)
         except S.OutOfModel as e:
             return T("Skip", str(e))
         got = _out(_get_call(p, case["req"]), _conv)
@@ -887,7 +1016,7 @@ def _run_live2(case, req, res_idx, child, real):
     p = psutil.Process(child.pid)
     pidmap = {real[0]: case["procs"][0]["pid"], real[1]: case["procs"][1]["pid"]}
     elig = _out(p._proc._get_eligible_cpus, _conv, pidmap)
-    res = _out(_call(p, req, case.get("form", "pos")), _conv, pidmap)
+    res = _out(_call(p, req, case.get("form", "pos"), case), _conv, pidmap)
     got = _out(_get_call(p, req), _conv, pidmap)
     dump = []
     for pid, st, b in zip(real, case["procs"], before):
